@@ -14,5 +14,6 @@ RULE = (
     "relative time, has-pred, has-succ)."
 )
 ASSUMPTIONS = ["order inside lookup lists is unconstrained (get_track_neighbors sorts the cache in place)"]
-REQUIRED_CLASSES = {t: ["query_on_changed_track"] for t in ("quick", "thorough")}
+REQUIRED_CLASSES = {t: ["query_on_changed_track", "ids_recomputed", "construct_route:from_tracks_partial_ids"]
+                    for t in ("quick", "thorough")}
 run_shard, replay, minimise = make(C06Oracle, quick=(1600, 30), thorough=(4800, 50), profile="structure")
